@@ -26,12 +26,13 @@ import (
 
 type c57Lister struct {
 	ids   []restic.ID
-	calls int
-	typ   restic.FileType
+	calls  int
+	listed bool
+	typ    restic.FileType
 }
 
 func (l *c57Lister) List(ctx context.Context, t restic.FileType, fn func(restic.ID, int64) error) error {
-	l.typ = t
+	l.typ, l.listed = t, true
 	for i, id := range l.ids {
 		if ctx.Err() != nil {
 			return ctx.Err()
@@ -148,7 +149,7 @@ func TestVerifC57(t *testing.T) {
 				nonNullWithErr++
 			}
 		}
-		if l.typ != ft {
+		if l.listed && l.typ != ft {
 			rec.Violation("wrong-file-type-listed", fmt.Sprintf("Find listed type %v instead of %v", l.typ, ft), q())
 		}
 		sig := kit.Sig(class, len(prefix), min(matches, 2), len(ids) > 1)
